@@ -1013,18 +1013,12 @@ def parseTables (ls : List String) : Except String SerProfile :=
 
 -- `decodeFrame` = `PT.decodeFrame` (`rowFrame` then `descOfFrame`), see `Model/ProfileDecode.lean`
 
-/-- frames of stack `i`, root first; `fuel` bounds the walk (prefixes point to earlier rows) -/
-def decodeStack (s : SerProfile) (t : SerThread) : Nat → Nat → Option (List FrameDesc)
-  | 0, _ => none
-  | fuel + 1, i => do
-    let f ← (t.stFrame[i]?).bind (decodeFrame s t)
-    match ← t.stPrefix[i]? with
-    | none => pure [f]
-    | some p => do pure ((← decodeStack s t fuel p) ++ [f])
+-- `decodeStack` = `PT.decodeStack` (walk `stackTable.prefix` from the row, decode every frame), the vocabulary of
+-- `C03_canonical_stack_decoded`; `wf` (checked first) guarantees `prefix[i] < i`, so the fuel `i + 1` suffices
 
 def decodeOptStack (s : SerProfile) (t : SerThread) : Option Nat → Option StackDesc
   | none => some none
-  | some i => (decodeStack s t (t.stLen + 1) i).map some
+  | some i => (decodeStack s t i).map some
 
 def msEq {α : Type} [DecidableEq α] (a b : List α) : Bool :=
   decide (a.length = b.length) && a.all (fun x => a.count x = b.count x)
